@@ -377,6 +377,16 @@ class Worker:
     self.cms = []        # the scopes this thread is inside of, innermost last
     self.thread = threading.Thread(target=self._loop, daemon=True)
     self.thread.start()
+    self.run(self._base_scopes)
+
+  def _base_scopes(self):
+    """Every thread of a case starts inside `as_sealed(None)` / `allow_writable_accessors(None)`
+    (= no override: the per-object flags decide), so that a case never depends on what an earlier
+    case of the same process may have left behind."""
+    import pyglove as pg
+    for cm in (pg.as_sealed(None), pg.allow_writable_accessors(None)):
+      cm.__enter__()
+      self.cms.append(cm)
 
   def _loop(self):
     while True:
@@ -1298,6 +1308,12 @@ class C08(Prop):
     return req
 
   def impl(self, case):
+    import pyglove as pg
+    # the harness thread starts from "no override" (see Worker._base_scopes)
+    with pg.as_sealed(None), pg.allow_writable_accessors(None):
+      return self._impl_body(case)
+
+  def _impl_body(self, case):
     import pyglove as pg
     classes()
     has_ext = 'ext' in case
